@@ -111,9 +111,10 @@ pub fn output_tokens(
 
     let trait_ident = &out_trait.ident;
     let trait_unsafety = &out_trait.unsafety;
+    // A method that consumes `self` moves the `T` out of the `Impl<T>`
     let params = out_trait.generics.impl_params_from_idents(
         generic_idents,
-        generics::TakesSelfByValue(false), // BUG?
+        generics::has_any_self_by_value(out_trait.fns.iter().map(|trait_fn| trait_fn.sig())),
     );
     let args = out_trait
         .generics
